@@ -1,43 +1,37 @@
 /*
- * models/net_mem.c -- memmove (C11 7.24.2.2) as a byte-wise copy with the compile-time bound NET_MEMMOVE_MAX
- * (fully unwound by CBMC: complete for n <= NET_MEMMOVE_MAX; a longer move fails the MODEL-BOUND assertion and the
- * group is reported undecided, never violated).  Used instead of CBMC's built-in memmove because the built-in
- * (array_copy / array_replace on a temporary of symbolic size) does not terminate in the propositional reduction
- * when source and destination lie in the same heap object of symbolic size -- exactly the compaction in
- * netbuf_read_wait (measured: buflen <= 8 already hangs; a constant-size object is instantaneous).
- * Semantics: "copying takes place as if the n characters from the object pointed to by s2 are first copied into a
- * temporary array ... and then the n characters from the temporary array are copied into the object pointed to by s1".
+ * models/net_mem.c -- memmove (C11 7.24.2.2) as a sound over-approximation that is exact at one ghost offset (G1):
+ * the destination region dst[0 .. n) receives ARBITRARY bytes, except that dst[g_mm_k] receives the byte that
+ * src[g_mm_k] held before the call (g_mm_k is chosen by the harness; it is arbitrary, so every statement of the form
+ * "for all k < n: dst'[k] == src[k]" that a proof needs is available at that k).  The real memmove is one of the
+ * behaviours of this model, therefore everything proved with the model holds for the real function.
+ * Used instead of CBMC's built-in memmove because the built-in (array_copy / array_replace through a temporary of
+ * symbolic size) does not get through the propositional reduction when source and destination lie in the same heap
+ * object of symbolic size -- exactly the compaction in netbuf_read_wait (measured: buflen <= 8 already hangs;
+ * a byte-wise loop model produces 47 M clauses at buflen <= 32).
+ * Preconditions (checked at every call): source readable and destination writable for n bytes; overlap is allowed.
  */
 #include <stddef.h>
 #include <stdint.h>
-#ifndef NET_MEMMOVE_MAX
-#define NET_MEMMOVE_MAX 64
-#endif
+
+size_t g_mm_k;
+unsigned g_mm_calls;
 
 void *
 memmove(void * dst, const void * src, size_t n)
 {
 	uint8_t * d = dst;
 	const uint8_t * s = src;
-	size_t i;
+	uint8_t keep = 0;
 
+	g_mm_calls++;
 	if (n == 0)
 		return (dst);
 	__CPROVER_precondition(__CPROVER_r_ok(src, n), "memmove source region readable");
 	__CPROVER_precondition(__CPROVER_w_ok(dst, n), "memmove destination region writeable");
-	if (n > NET_MEMMOVE_MAX) {
-		__CPROVER_assert(0, "MODEL-BOUND memmove: length exceeds NET_MEMMOVE_MAX");
-		__CPROVER_assume(0);
-	}
-	if (__CPROVER_same_object(dst, src) && __CPROVER_POINTER_OFFSET(dst) > __CPROVER_POINTER_OFFSET(src)) {
-		/* destination above source: copy from the top down */
-		for (i = NET_MEMMOVE_MAX; i > 0; i--)
-			if (i - 1 < n)
-				d[i - 1] = s[i - 1];
-	} else {
-		for (i = 0; i < NET_MEMMOVE_MAX; i++)
-			if (i < n)
-				d[i] = s[i];
-	}
+	if (g_mm_k < n)
+		keep = s[g_mm_k];
+	__CPROVER_havoc_slice(d, n);
+	if (g_mm_k < n)
+		d[g_mm_k] = keep;
 	return (dst);
 }
